@@ -34,7 +34,9 @@ SIM = 'simulation lemmas: real generator method on abstract children -> rendered
 CLAIMED = {
     'C01': T('Every sequential construct of the generator (expressions, casts, statements, blocks, arrays, calls, function prologue) has a simulation lemma: the text the real '
              'method emits, for all run-time values and all frame offsets, with arbitrary (contracted) children, does exactly what the reference semantics of HiD prescribes: same '
-             'children in the same order once each, same events, same stores, same result. Proof per construct; assembling constructs into whole programs is a paper induction.', SIM),
+             'children in the same order once each, same events, same stores, same result (incl. array declarations, block-scoped arrays, globals, entry frame: bounded in the number '
+             'of entry parameters). A failed obligation is replayed by executing the emitted text on the concrete VM from the solver\'s model. Proof per construct; assembling '
+             'constructs into whole programs is a paper induction.', SIM),
     'C02': T('Lemmas with written-out leaf sets for try/undo, try/stop, preempt, ??, !is_defeat/!truth_is_defeat, exits out of a try: which block runs under which condition on the '
              'children, that the unchosen block leaves nothing, and that fp, ap and the defeat word are as at try entry afterwards (history clause = invariant at every construct boundary).',
              'leaf-set contracts on emitted assembly under the Turing-jump semantics, z3'),
@@ -53,7 +55,8 @@ CLAIMED = {
     'C10': T('No real generator method raises an internal exception on any abstract input used by the lemmas (NOERR on every lemma); every grammar rule raises only ParserError; '
              'lexer readers raise only LexerError on all inputs (incl. huge and malformed escapes); rendering functions total for all bytes. Diagnostics: every raise site of a '
              'CompilerError is inventoried from the source, and for a witness corpus reaching the sites the error is located inside the source and renders; the CLI leaves no output '
-             'file on failure. Whole-compiler totality over all inputs is an induction on paper over these per-function contracts (DESIGN 14).',
+             'file on failure; a generated corpus of accepted programs (every declaration form x element type x length 0..17, the examples) compiles to well-formed assembly '
+             '(corpus parts are labelled bounded). Whole-compiler totality over all inputs is an induction on paper over these per-function contracts (DESIGN 14).',
              'NOERR obligations + pyvc raises-only contracts + raise-site inventory with witness corpus', PY_NOTE),
     'C11': T('Contracts on the ladder ps_expr0..8/ps_expr and on bin_op (left fold for an arbitrary accumulated expression): operand rule, operator set = documented level, grouping. '
              'Round trip: bounded stand-in (all pairs and triples).', 'pyvc path exploration of the grammar rules', PY_NOTE),
@@ -62,10 +65,12 @@ CLAIMED = {
              'the stated assembler grammar, non-interference of pairs, string table; element layout and string lookups through the C01 array lemmas.',
              'enum (finite, exhaustive) + pyvc loop contract + frame clause'),
     'C14': T('For every foldable operator and literal cast the real simplify()/cast() text is executed on symbolic unbounded integers and proved to commute with the run-time operation '
-             'on wrapped operands; out-of-range operands are recorded known findings (folding without word size).', 'pyvc + z3 (integers)', PY_NOTE),
+             'on wrapped operands; out-of-range operands are recorded known findings (folding without word size). Effects: for every operator/cast and literal/non-constant operands '
+             'the folded tree keeps every operand the source semantics evaluates.', 'pyvc + z3 (integers) + enum over operand shapes', PY_NOTE),
     'C15': T('Every lemma is discharged for unchecked builds as well, against the same reference semantics restricted to fault-free runs.', SIM),
     'C16': T('Emitted code of every block construct never falls through / breaks unless the real exit_modes() says so, for all 31^k child mode sets; function prologue lemma: nothing '
-             'executes after a body that cannot fall through.', 'enum over mode sets x symbolic leaves'),
+             'executes after a body that cannot fall through; sequential composition of modes in CodeBlock.evaluate for all mode sets of 2 and 3 block statements; preemptive marker '
+             '(a preempt block anywhere makes a defeat function preemptive).', 'enum over mode sets x symbolic leaves'),
     'C17': T('Library text: write(bool), byte/string loops (loop contracts with ghost index), write(int) (entry/sign/minimum, digit-loop step for every digit count, hand-over), '
              'dispatch by storage through the call lemmas.', 'loop contracts on the real stdlib text, z3'),
     'C07': T('Contracts on the real typing functions: coercibility lattice (Type.coercible / literal shrinkability incl. folded arithmetic) against the documented table by complete '
